@@ -29,6 +29,10 @@ let wire_s (msgs : (nat * wmsg) list) : string =
     | _ -> Printf.sprintf " w%d:n=%d:[%s]" (int_of_nat c) (iz n) (String.concat ";" (List.map wrect_s rects))) msgs)
 
 let client_s (st : state) (i : int) (c : client) : string =
+  let life = iz c.cExt.xLife in
+  if life = 2 then Printf.sprintf " | c%d GONE" i
+  else if life <> 0 then Printf.sprintf " | c%d CLOSED" i
+  else
   Printf.sprintf " | c%d M=[%s] C=[%s] d=%d,%d R=[%s] f=%s%s%s%s%s%s%s q=%d,%d sy=%d df=%d,%d sc=%s b=%d sz=%dx%d P=%d I=%s"
     i (rgn_s c.cM) (rgn_s c.cC) (iz c.cDX) (iz c.cDY) (rgn_s c.cR)
     (b2s c.cUseCopy) (b2s c.cShape) (b2s c.cCurChanged) (b2s c.cReady) (b2s c.cUseNewFB) (b2s c.cUseExt)
@@ -75,6 +79,8 @@ let parse_op (ws : string list) : op option =
   | ["defer"; ms] -> Some (OpDefer (zi ms))
   | ["setpf"; c; b] -> Some (OpSetPixelFormat (ni c, zi b))
   | ["setscale"; c; n] -> Some (OpSetScale (ni c, zi n))
+  | ["close"; c] -> Some (OpClose (ni c))
+  | ["reap"] -> Some OpReap
   | _ -> None
 
 let () =
